@@ -6,6 +6,7 @@ package main
 //     prefix/suffix oracles and porcupine; (c) free-running producers, per-producer order.
 
 import (
+	"bytes"
 	"context"
 	"fmt"
 	"os"
@@ -144,9 +145,18 @@ func c06single(w *W, y *yielder, policy string, cap, prefill int, ops string, ta
 			parked = append(parked, done)
 			return "", ""
 		}
-		// must return without waiting for the appender (the gate is closed): a hang here is caught
-		// by the process watchdog and classified from the goroutine dump
-		submit(kind, id)
+		// must return without waiting for the appender (the gate is closed)
+		if done, pv, _ := callWithWatchdog(20*time.Second, func() { c06producer(func() { submit(kind, id) }) }); !done {
+			if k, gr := stuckInLibrary("c06producer"); k != "" {
+				w.Violate("C06:call-waits-for-appender:"+policy, fmt.Sprintf("policy %s, buffer %d holding %d items, worker parked inside the appender: the call for %s does not return (%s inside the library)\n%s", policy, cap, len(m.queue), id, k, trunc(gr, 1200)),
+					map[string]any{"policy": policy, "cap": cap, "prefill": prefill, "ops": ops})
+				w.flush()
+				os.Exit(0)
+			}
+			return "a submit call did not return (not parked in the library)", "inconclusive"
+		} else if pv != nil {
+			return fmt.Sprintf("submit panicked: %v", pv), "panic"
+		}
 		if idleBefore {
 			got, ok := waitEntered(g, 20*time.Second)
 			if !ok || got != id {
@@ -599,6 +609,59 @@ func c06rolling(w *W, y *yielder, policy string, sep bool, ci int) (string, stri
 	return "", ""
 }
 
+// c06console: free-running producers through AsyncLogger -> ConsoleAppender (JSON layout); every delivered line
+// must be a complete record of a submitted id, at most once, in per-producer order.
+func c06console(w *W, c asyncCase, ci int) string {
+	sink := &chunkSink{}
+	log.Stdout = sink
+	all := log.LevelRange{MinLevel: log.NoneLevel, MaxLevel: log.MaxLevel}
+	pol := map[string]log.BufferFullPolicy{"Block": log.BufferFullPolicyBlock, "Discard": log.BufferFullPolicyDiscard, "DiscardOldest": log.BufferFullPolicyDiscardOldest}[c.Policy]
+	ap := &log.ConsoleAppender{Layout: &log.JSONLayout{BaseLayout: log.BaseLayout{FileLineLength: 48}}}
+	l := &log.AsyncLogger{LoggerBase: log.LoggerBase{Name: "c06console", Level: all}, BufferSize: c.Buf, BufferFullPolicy: pol,
+		AppenderRefs: log.AppenderRefs{AppenderRefs: []*log.AppenderRef{{Appender: ap, Level: all}}}}
+	if err := l.Start(); err != nil {
+		return "start: " + err.Error()
+	}
+	per := 1200 / c.Producers
+	var wg sync.WaitGroup
+	for p := 0; p < c.Producers; p++ {
+		wg.Add(1)
+		go func(p int) {
+			defer wg.Done()
+			for i := 0; i <= per; i++ {
+				appendEvent(l, log.ErrorLevel, fmt.Sprintf("id-o%dp%dx%d-%d", w.Spec.Shard, p, ci, i))
+			}
+		}(p)
+	}
+	wg.Wait()
+	if ok, pv, _ := callWithWatchdog(90*time.Second, l.Stop); !ok || pv != nil {
+		return fmt.Sprintf("Stop did not return / panicked (%v)", pv)
+	}
+	last := map[int]int{}
+	seen := map[string]bool{}
+	n := 0
+	for _, ch := range sink.take() {
+		n++
+		id := idOf(ch)
+		var sh, p, cc, i int
+		if _, err := fmt.Sscanf(id, "id-o%dp%dx%d-%d", &sh, &p, &cc, &i); err != nil || !bytes.HasSuffix(ch, []byte("\"}\n")) || !bytes.Contains(ch, []byte(`"level":"error"`)) {
+			return fmt.Sprintf("[%s] console line %d is not the record of a submitted event: %q", c.class(), n, trunc(string(ch), 200))
+		}
+		if seen[id] {
+			return fmt.Sprintf("[%s] %s delivered twice", c.class(), id)
+		}
+		seen[id] = true
+		if prev, ok := last[p]; ok && i <= prev {
+			return fmt.Sprintf("[%s] producer %d: item %d delivered after item %d", c.class(), p, i, prev)
+		}
+		last[p] = i
+	}
+	if int64(n)+l.GetDiscardCounter() != int64(c.Producers*(per+1)) {
+		return fmt.Sprintf("[%s] delivered %d + discarded %d != submitted %d", c.class(), n, l.GetDiscardCounter(), c.Producers*(per+1))
+	}
+	return ""
+}
+
 func c06Worker(w *W) {
 	registerMonitorPlugins()
 	y := installYielder(uint64(w.Spec.Seed), 0, 0)
@@ -642,7 +705,7 @@ func c06Worker(w *W) {
 		rec2 = func(p string) {
 			if len(p) > 0 {
 				for pi, pol := range policies {
-					for si, st := range []struct{ cap, prefill int }{{100, 100}, {101, 99}} {
+					for si, st := range []struct{ cap, prefill int }{{100, 100}, {101, 99}, {100, 0}, {100, 1}} {
 						idx++
 						if idx%w.Spec.NShards != w.Spec.Shard {
 							continue
@@ -651,7 +714,9 @@ func c06Worker(w *W) {
 						d, cls := c06single(w, y, pol, st.cap, st.prefill, p, idx)
 						w.Eval(1)
 						cs := map[string]any{"policy": pol, "cap": st.cap, "prefill": st.prefill, "ops": p}
-						if d != "" {
+						if cls == "inconclusive" {
+							w.Inconclusive(d)
+						} else if d != "" {
 							w.Violate("C06:model:"+cls+":"+pol, fmt.Sprintf("policy %s, buffer %d with %d queued + 1 in flight, ops %q: %s", pol, st.cap, st.prefill, p, d), cs)
 						} else {
 							w.Res.DistinctCount++
@@ -712,6 +777,16 @@ func c06Worker(w *W) {
 		n := int(w.Spec.N)
 		for ci := 0; ci < n; ci++ {
 			c := asyncCase{Policy: policies[ci%3], Buf: []int{100, 128, 1000}[r.IntN(3)], Producers: []int{1, 2, 8, 32}[r.IntN(4)], Appender: []string{"fast", "slow"}[r.IntN(2)]}
+			if ci%4 == 3 {
+				// the built-in console appender behind the async logger (real formatting, real pooling of events)
+				if d := c06console(w, c, ci); d != "" {
+					w.Violate("C06:free-running:console:"+c.Policy, d, c)
+				} else {
+					w.Distinct("free-console|" + c.class())
+				}
+				w.Eval(1)
+				continue
+			}
 			y.prob, y.maxUS = []uint64{0, 3, 7}[r.IntN(3)], 40
 			w.Journal("free %+v", c)
 			rec.take()
@@ -777,7 +852,7 @@ func c06Worker(w *W) {
 func init() {
 	register(&Prop{
 		ID: "C06", Level: "exploration", MinDistinct: 300, Worker: c06Worker,
-		Rule: "(a) deterministic histories: a gated appender parks the worker inside Append with one item in flight; from a full buffer (cap 100, 100 queued) and a nearly full one (cap 101, 99 queued), ALL operation sequences of length 1..5 (quick) / 1..7 (thorough) over {append event, raw write, let the worker take one item} are executed for each of the three policies and compared step-wise and at the end (delivered sequence, discard counter) with an executable queue model; Block-policy calls on a full buffer are issued from a goroutine, must park and are released by a later step. " +
+		Rule: "(a) deterministic histories: a gated appender parks the worker inside Append with one item in flight; from a full buffer (cap 100, 100 queued), a nearly full one (cap 101, 99 queued), an empty one and one holding a single item, ALL operation sequences of length 1..5 (quick) / 1..7 (thorough) over {append event, raw write, let the worker take one item} are executed for each of the three policies and compared step-wise and at the end (delivered sequence, discard counter) with an executable queue model; Block-policy calls on a full buffer are issued from a goroutine, must park and are released by a later step. " +
 			"(b) concurrent histories: 2-8 producers x 3-5 operations against a parked consumer and a (nearly) full buffer, then drain; oracles: survivor count and counter, per-producer order, Discard => survivors are a prefix / DiscardOldest => a suffix of each producer's submissions, and porcupine linearizability of the recorded call/return history against the bounded-queue-with-policy model; a call parked inside the library while the gate is closed is a deadlock witness. " +
 			"(d) the asynchronous rolling-file logger (buffer 100, Discard/DiscardOldest, separate on/off) with its worker held inside a file write at a guarded yield point: 250 calls must return and the files must hold exactly the survivors the policy prescribes. (c) free-running producers (1-32) with fast/slow appenders and seeded yields: per-producer delivery order. distinct_nontrivial = number of enumerated (policy,start state,sequence) histories that matched + distinct parameter classes of (b) and (c).",
 		Assumptions: []string{"cross-producer real-time order is not promised and not checked except through linearizability of (b)", "porcupine Unknown (timeout) is inconclusive"},
